@@ -15,7 +15,9 @@ from kernpy.core import tokens as tk
 
 # ---- cores (unconditional)
 DEC_CORE = ['L', 'J', 'K', 'k', ';', '(', ')', '[', ']', '_', "'", '^', '~', '/', '\\', ':', 't', 'M', 'm', 'w', '{', '}',
-            '"', '`', 's', 'S', '$', 'O', 'N', 'V', 'l', 'i']            # the 30+ signifiers that do not combine (property C01); checked pairwise below
+            '"', '`', 's', 'S', '$', 'O', 'N', 'V', 'l', 'i', 'j', 'X', 'Z']            # the 30+ signifiers that do not combine (property C01); checked pairwise below
+CANON_CORE = list(DEC_CORE)        # none of these combines with a neighbour or with itself (checked on every run, a failure is a finding of C01.b)
+DEC_ONLY_CORE = ['T', 'W']         # accepted signifiers that combine with themselves / a neighbour: part of C03's grids, not of canonicity
 REST_DEC_CORE = [';', '(', ')', '{', '}', "'"]
 DUR_CORE = ['1', '2', '4', '8', '16']
 ACC_CORE = ['#', '-', 'n', '##', '--']
